@@ -7,6 +7,7 @@ package main
 import (
 	"fmt"
 	"go/token"
+	"go/types"
 	"sort"
 	"strings"
 
@@ -613,5 +614,42 @@ func checkMountBuilder(c *Check) {
 		}
 		c.Cond(okF, "3/builder-flags", "pkg/mount.Builder.FilterNotExist", p.Pos(fn.Pos()), "an entry is dropped only if it is a bind mount whose source does not exist", "FilterNotExist drops entries under a different condition")
 	}
-	c.Expect("3/builder-flags", 8)
+	// the raw parameters carry the entry's own values: Source, Target, FsType, Flags and Data of SyscallParams are
+	// written in one place only (the conversion of an entry) and Flags is the entry's Flags, unmodified
+	writers := map[string][]string{}
+	flagsOK := false
+	for _, fn := range p.AllFuncs() {
+		for _, b := range fn.Blocks {
+			for _, in := range b.Instrs {
+				st, ok := in.(*ssa.Store)
+				if !ok {
+					continue
+				}
+				fa, ok := st.Addr.(*ssa.FieldAddr)
+				if !ok {
+					continue
+				}
+				pt, ok := fa.X.Type().Underlying().(*types.Pointer)
+				if !ok || !strings.HasSuffix(pt.Elem().String(), "pkg/mount.SyscallParams") {
+					continue
+				}
+				f := fieldName(fa.X.Type(), fa.Field)
+				switch f {
+				case "Flags", "Source", "Target", "FsType", "Data":
+					writers[f] = append(writers[f], funcName(fn)+"@"+p.Pos(st.Pos()))
+					if f == "Flags" {
+						d := describe(st.Val)
+						flagsOK = strings.HasSuffix(d, ".Flags") && !strings.ContainsAny(d, "&|^ ")
+					}
+				}
+			}
+		}
+	}
+	for _, f := range []string{"Flags", "Source", "Target"} {
+		ws := writers[f]
+		same := len(ws) == 1
+		c.Cond(same && (f != "Flags" || flagsOK), "3/builder-flags", "pkg/mount.SyscallParams."+f+":single-writer", "pkg/mount/", "written once, by the conversion of an entry, from the entry's own field",
+			fmt.Sprintf("SyscallParams.%s is written at %v: the raw mount no longer carries exactly the entry's %s (e.g. a read-only request lost on the way to the child)", f, ws, f))
+	}
+	c.Expect("3/builder-flags", 11)
 }
